@@ -43,6 +43,8 @@ def gen_plan(seed: int, run: int, tier: str) -> dict:
     rng = common.rng_for(seed, run, "work")
     if rng.random() < 0.45:
         return _gen_threads(seed, run, tier, rng)
+    if rng.random() < 0.5:
+        return _gen_scenario(seed, run, tier, rng)
     nclients = rng.choice([2, 2, 3, 3, 4])
     kinds = [common.weighted(rng, CLIENT_KINDS) for _ in range(nclients)]
     if not any(k != "raw" for k in kinds):
@@ -75,6 +77,98 @@ def gen_plan(seed: int, run: int, tier: str) -> dict:
             for _ in range(rng.randint(1, 3)):
                 faults.append({"client": c, "method": rng.choice(["GetTrials", "GetTrials", "GetTrials", "GetTrials", "GetTrial", "SetTrialStateValues", "CreateNewTrial"]), "nth": rng.randint(0, 6), "phase": rng.choice(["pre", "post"])})
     cfg = {"mode": "clients", "deployment": "mixed", "p_line": 0.0, "p_seam": rng.choice([0.2, 0.5, 0.8]), "pool": rng.choice([1, 2, 3]), "busy_timeout": 60.0}
+    return {"check": ID, "seed": seed, "run": run, "cfg": cfg, "clients": clients, "faults": faults, "sched": {"seed": rng.getrandbits(48)}}
+
+
+def _gen_scenario(seed: int, run: int, tier: str, rng: Any) -> dict:
+    """Phased multi-client history around the cache's weak spots (phases are barriers; inside
+    a phase the scheduler interleaves the clients): trials finish out of creation order, so a
+    reader's fetch watermark moves past older unfinished trials; then an *event* hits one
+    caching client (failed GetTrials, pickle round trip, nothing); then the older trials
+    change and everybody reads again."""
+    kinds = [rng.choice(["cached", "grpc-cached", "grpc-rdb"]), common.weighted(rng, CLIENT_KINDS)]
+    if rng.random() < 0.5:
+        kinds.append(common.weighted(rng, CLIENT_KINDS))
+    names = ["k%d" % i for i in range(len(kinds))]
+    clients: dict[str, dict] = {n: {"kind": k, "ops": []} for n, k in zip(names, kinds)}
+    writer = rng.choice(names)
+    nobj = 1
+    ntr = rng.randint(3, 5)
+
+    def add(c: str, phase: int, op: dict) -> None:
+        op = dict(op)
+        op["phase"] = phase
+        clients[c]["ops"].append(op)
+
+    g = gen.OpGen(rng, client="", deletes=False, getters=False, unknown_ids=False, max_studies=1, max_trials=8, multi_objective=False)
+    add(writer, 0, {"op": "create_new_study", "directions": ["MINIMIZE"], "name": "scn", "as": "S0"})
+    if rng.random() < 0.4:
+        add(rng.choice(names), 0, {"op": "create_new_study", "directions": ["MAXIMIZE"], "name": "other", "as": "S1"})
+    trials = []
+    for i in range(ntr):
+        h = "T%d" % i
+        trials.append(h)
+        op: dict = {"op": "create_new_trial", "study": "S0", "as": h}
+        if rng.random() < 0.25:
+            t = g.template(nobj)
+            t.update({"state": "WAITING", "values": None, "has_start": False, "has_complete": False, "dt_start": None, "dt_complete": None})
+            op["template"] = t
+        add(rng.choice(names), 1, op)
+    readers = [n for n in names if clients[n]["kind"] != "raw"]
+
+    def read_ops(c: str, phase: int) -> None:
+        r = rng.random()
+        if r < 0.7:
+            add(c, phase, {"op": "read_check", "study": "S0", "filters": sorted(rng.sample(range(len(ops.STATE_FILTERS)), 2)), "full": rng.random() < 0.5})
+        if r > 0.4:
+            add(c, phase, {"op": "read_trial", "trial": rng.choice(trials), "lookup": rng.random() < 0.3})
+
+    for c in readers:
+        if rng.random() < 0.8:
+            read_ops(c, 2)
+    # later trials finish first
+    late = trials[ntr // 2 :]
+    early = trials[: ntr // 2] or trials[:1]
+    for h in late:
+        if rng.random() < 0.85:
+            add(rng.choice(names), 3, {"op": "set_trial_state_values", "trial": h, "state": rng.choice(["COMPLETE", "COMPLETE", "FAIL", "RUNNING"]), "values": [cf(g.objective_value())]})
+    for c in names:
+        for o in clients[c]["ops"]:
+            if o.get("op") == "set_trial_state_values" and o["state"] != "COMPLETE":
+                o["values"] = None
+    for c in readers:
+        if rng.random() < 0.8:
+            read_ops(c, 4)
+    # the event
+    victim = rng.choice(readers)
+    faults = []
+    ev = rng.choice(["rpc", "rpc", "repickle", "none"])
+    if ev == "repickle" and clients[victim]["kind"] == "cached":
+        add(victim, 5, {"op": "repickle"})
+    elif ev == "rpc" and clients[victim]["kind"].startswith("grpc"):
+        add(victim, 5, {"op": "read_check", "study": "S0", "filters": [0], "full": False, "expect_fault": True})
+        faults.append({"client": victim, "method": "GetTrials", "phase": rng.choice(["pre", "post"]), "in_phase": 5})
+    # the older trials change
+    for h in early:
+        k = rng.choice(["attr", "state", "inter", "param"])
+        c = rng.choice(names)
+        if k == "attr":
+            add(c, 6, {"op": "set_trial_user_attr", "trial": h, "key": "a", "value": "v%d" % g.uniq()})
+        elif k == "inter":
+            add(c, 6, {"op": "set_trial_intermediate_value", "trial": h, "step": 1, "value": cf(g.uniq() * 1.0)})
+        elif k == "param":
+            add(c, 6, {"op": "set_trial_param", "trial": h, "name": "x", "dist": gen.DISTS["x"], "value": cf(0.5)})
+        else:
+            add(c, 6, {"op": "set_trial_state_values", "trial": h, "state": "COMPLETE", "values": [cf(g.objective_value())]})
+    if rng.random() < 0.5:
+        t = g.template(nobj)
+        add(rng.choice(names), 6, {"op": "create_new_trial", "study": "S0", "as": "T9", "template": t})
+        trials.append("T9")
+    for c in readers:
+        read_ops(c, 7)
+        if rng.random() < 0.5:
+            read_ops(c, 7)
+    cfg = {"mode": "clients", "deployment": "mixed", "scenario": True, "p_line": 0.0, "p_seam": rng.choice([0.2, 0.5, 0.8]), "pool": rng.choice([1, 2, 3]), "busy_timeout": 60.0}
     return {"check": ID, "seed": seed, "run": run, "cfg": cfg, "clients": clients, "faults": faults, "sched": {"seed": rng.getrandbits(48)}}
 
 
@@ -177,7 +271,14 @@ def _run_clients(plan: dict, sim: sched.Sim, ch: sched.Chooser, dep: deploy.Depl
         if phase == "pre":
             counts[(task, method)] = counts.get((task, method), 0) + 1
         for f in faults:
-            if f["client"] == task and f["method"] == method and f["phase"] == phase and f["nth"] == counts.get((task, method), 0) - 1 and not f.get("fired"):
+            if f["client"] != task or f["method"] != method or f["phase"] != phase or f.get("fired"):
+                continue
+            if "in_phase" in f:
+                if cur_phase.get(task) == f["in_phase"]:
+                    f["fired"] = True
+                    return True
+                continue
+            if f["nth"] == counts.get((task, method), 0) - 1:
                 f["fired"] = True
                 return True
         return False
@@ -194,6 +295,14 @@ def _run_clients(plan: dict, sim: sched.Sim, ch: sched.Chooser, dep: deploy.Depl
             servers.append(srv)
             storages[n] = srv.new_client(procs[n])
     verdict: list[tuple[str, str]] = []
+    cur_phase: dict[str, int] = {}
+    # phase barriers of scenario plans: an op of phase p starts when all ops of phases < p are done
+    phase_total: dict[int, int] = {}
+    phase_done: dict[int, int] = {}
+    for c_ in plan["clients"].values():
+        for o_ in c_["ops"]:
+            if "phase" in o_:
+                phase_total[o_["phase"]] = phase_total.get(o_["phase"], 0) + 1
     deleted_by: dict[str, str] = {}  # study handle -> client that deleted it
     writes_since_read: dict[str, set] = {n: set() for n in plan["clients"]}
     stats = {"reads": 0, "reads_after_foreign_write": 0}
@@ -306,6 +415,21 @@ def _run_clients(plan: dict, sim: sched.Sim, ch: sched.Chooser, dep: deploy.Depl
             for op in c["ops"]:
                 if verdict:
                     return
+                if "phase" in op:
+                    ph = op["phase"]
+                    sim.block_until(lambda: bool(verdict) or all(phase_done.get(q, 0) >= n_ for q, n_ in phase_total.items() if q < ph), "phase")
+                    cur_phase[name] = ph
+                try:
+                    one_op(name, op)
+                finally:
+                    if "phase" in op:
+                        phase_done[op["phase"]] = phase_done.get(op["phase"], 0) + 1
+            st = storages[name]
+            if hasattr(st, "remove_session"):
+                st.remove_session()
+
+        def one_op(name: str, op: dict) -> None:
+            if True:
                 sim.seam("step")
                 st = storages[name]
                 with gate:
@@ -322,18 +446,18 @@ def _run_clients(plan: dict, sim: sched.Sim, ch: sched.Chooser, dep: deploy.Depl
                         sim.count("repickled")
                         sim.note("repickle", name)
                         trace.append("%s(%s) repickle" % (name, kinds[name]))
-                        continue
+                        return
                     if op["op"] == "read_check":
                         read_check(name, st, op["study"], op.get("filters"), op.get("full", True))
                         sim.note("read", name, op["study"])
-                        continue
+                        return
                     if op["op"] == "read_trial":
                         read_trial(name, st, op)
                         sim.note("read_trial", name, op["trial"])
-                        continue
+                        return
                     res = ops.apply_real(st, op, env)
                     if res[0] == "skip":
-                        continue
+                        return
                     if res[0] == "ok" and op["op"] in ("create_new_study", "create_new_trial"):
                         env.real[op["as"]] = res[1][1]
                     if res[0] == "ok" and op["op"] == "delete_study":
@@ -343,9 +467,6 @@ def _run_clients(plan: dict, sim: sched.Sim, ch: sched.Chooser, dep: deploy.Depl
                             writes_since_read[other].add(name)
                     trace.append("%s(%s) %s -> %s" % (name, kinds[name], c03._short(op), res[1] if res[0] == "err" else "ok"))
                     sim.note("op", name, op["op"], res[:2] if res[0] == "err" else "ok")
-            st = storages[name]
-            if hasattr(st, "remove_session"):
-                st.remove_session()
 
         return body
 
